@@ -64,6 +64,7 @@ type vfScen struct {
 	Coord   string            `json:"coord"`
 	Fault   map[string]string `json:"fault"`
 	Kind    string            `json:"kind"`
+	NSrc    int               `json:"nsrc"` // measurement sources of the statement (all of the one db/rp)
 	Allowed []vfAllowed       `json:"allowed"` // terminal states of the model for this scenario
 	Variant int               `json:"variant"` // selects the concrete representative of the fault classes
 	Trace   bool              `json:"trace"`   // record events for trace validation
@@ -84,6 +85,14 @@ func vfNodeID(name string) uint64 {
 	return id
 }
 func vfNodeName(id uint64) string { return fmt.Sprintf("n%d", id) }
+
+// vfSourceName is the measurement name of the k-th (0-based) source of a statement.
+func vfSourceName(k int) string {
+	if k == 0 {
+		return vfMeasurement
+	}
+	return fmt.Sprintf("%s%d", vfMeasurement, k+1)
+}
 
 const (
 	vfDB          = "db0"
@@ -711,7 +720,7 @@ func (g *vfShardGroup) CreateIterator(ctx context.Context, m *influxql.Measureme
 	if g.fails() {
 		return nil, errVfStore
 	}
-	it := &vfIter{run: g.run, ids: g.run.owned(g.node.id, g.ids), naux: len(opt.Aux), stallAt: -1}
+	it := &vfIter{run: g.run, name: m.Name, ids: g.run.owned(g.node.id, g.ids), naux: len(opt.Aux), stallAt: -1}
 	if g.run.faultOf(g.node.id) == "stallMid" && len(it.ids) > 0 {
 		it.stallAt = g.run.variant % len(it.ids)
 	}
@@ -741,6 +750,7 @@ func (g *vfShardGroup) ExpandSources(sources influxql.Sources) (influxql.Sources
 // vfIter yields one marker point per shard (time = value = shard id).
 type vfIter struct {
 	run     *vfRun
+	name    string
 	ids     []uint64
 	pos     int
 	naux    int
@@ -759,7 +769,7 @@ func (it *vfIter) Next() (*query.FloatPoint, error) {
 	}
 	id := it.ids[it.pos]
 	it.pos++
-	p := &query.FloatPoint{Name: vfMeasurement, Time: vfT0.UnixNano() + int64(id), Value: float64(id)}
+	p := &query.FloatPoint{Name: it.name, Time: vfT0.UnixNano() + int64(id), Value: float64(id)}
 	if it.naux > 0 {
 		p.Aux = make([]interface{}, it.naux)
 		for i := range p.Aux {
@@ -959,7 +969,8 @@ func vfJSONLine(v interface{}) string {
 
 type vfResult struct {
 	Outcome string // "success" | "error"
-	Reads   []int
+	Reads   []int   // per shard, summed over the sources
+	Per     [][]int // per source, per shard
 	Err     string
 	Assign  []string
 	Events  []map[string]interface{}
@@ -1105,7 +1116,11 @@ func vfExec(cl *vfCluster, sc *vfScen, rid int, timeout time.Duration) (res *vfR
 	for _, n := range sc.Nodes {
 		faultEv[n] = run.fault[vfNodeID(n)]
 	}
-	run.event(map[string]interface{}{"e": "scenario", "sid": sc.ID, "owners": ownersEv, "coord": sc.Coord, "fault": faultEv, "kind": sc.Kind})
+	nsrc := sc.NSrc
+	if nsrc < 1 {
+		nsrc = 1
+	}
+	run.event(map[string]interface{}{"e": "scenario", "sid": sc.ID, "owners": ownersEv, "coord": sc.Coord, "fault": faultEv, "kind": sc.Kind, "nsrc": nsrc})
 
 	coord := cl.nodes[vfNodeID(sc.Coord)]
 	n := run.nshards
@@ -1123,12 +1138,26 @@ func vfExec(cl *vfCluster, sc *vfScen, rid int, timeout time.Duration) (res *vfR
 	switch sc.Kind {
 	case "select", "query", "cost":
 		mapper := &ClusterShardMapper{MetaClient: mc, TSDBStore: coord.st, MetaExecutor: me}
-		m := &influxql.Measurement{Database: vfDB, RetentionPolicy: vfRP, Name: vfMeasurement}
+		// the measurement sources of the statement, all of the one db/rp
+		ms := make([]*influxql.Measurement, nsrc)
+		for k := range ms {
+			ms[k] = &influxql.Measurement{Database: vfDB, RetentionPolicy: vfRP, Name: vfSourceName(k)}
+		}
+		m := ms[0]
 		tr := influxql.TimeRange{Min: vfT0.Add(time.Minute), Max: vfT0.Add(time.Duration(n)*time.Hour - time.Minute)}
 		if sc.Variant%2 == 0 {
 			tr.Max = vfT0.Add(30 * time.Minute)
 		}
-		sg, err := mapper.MapShards(influxql.Sources{m}, tr, query.SelectOptions{})
+		// the sources as the statement names them: plain measurements or subqueries (mapShards recurses)
+		var sources influxql.Sources
+		for k, mm := range ms {
+			if nsrc > 1 && (sc.Variant/11+k)%3 == 0 {
+				sources = append(sources, &influxql.SubQuery{Statement: &influxql.SelectStatement{Sources: influxql.Sources{mm}}})
+			} else {
+				sources = append(sources, mm)
+			}
+		}
+		sg, err := mapper.MapShards(sources, tr, query.SelectOptions{})
 		if err != nil {
 			return res, fmt.Errorf("MapShards: %v", err)
 		}
@@ -1176,72 +1205,103 @@ func vfExec(cl *vfCluster, sc *vfScen, rid int, timeout time.Duration) (res *vfR
 			}
 			run.event(map[string]interface{}{"e": "opEnd", "op": op, "res": r, "dirty": vfDirtyProj(csm, src)})
 		}
+		per := make([][]int, nsrc) // per source: reads of every shard
+		for k := range per {
+			per[k] = make([]int, n)
+		}
+		total := func() []int {
+			t := make([]int, n)
+			for _, p := range per {
+				for i, v := range p {
+					t[i] += v
+				}
+			}
+			return t
+		}
 		if sc.Kind == "cost" {
-			run.event(map[string]interface{}{"e": "opStart", "op": "IC"})
-			cost, err := csm.IteratorCost(m, opt)
-			opEnd("IC", err)
-			if err != nil {
-				finish("error", nil, err)
-				return res, nil
+			for k, mm := range ms {
+				run.event(map[string]interface{}{"e": "opStart", "op": "IC"})
+				cost, err := csm.IteratorCost(mm, opt)
+				opEnd("IC", err)
+				if err != nil {
+					finish("error", nil, err)
+					return res, nil
+				}
+				v := cost.CachedValues
+				for s := 0; s < n; s++ {
+					per[k][s] = int(v % 100)
+					v /= 100
+				}
+				if v != 0 {
+					res.Notes = append(res.Notes, "read:out-of-range-shard")
+				}
 			}
-			reads := make([]int, n)
-			v := cost.CachedValues
-			for s := 0; s < n; s++ {
-				reads[s] = int(v % 100)
-				v /= 100
-			}
-			if v != 0 {
-				res.Notes = append(res.Notes, "read:out-of-range-shard")
-			}
-			finish("success", reads, nil)
+			res.Per = per
+			finish("success", total(), nil)
 			return res, nil
 		}
 		if sc.Kind == "query" {
 			// the whole statement through the query engine (compile, map, field mapping, cursor)
 			sg.Close()
-			reads, qerr, e := vfEngineSelect(mapper, tr, n, &res.Notes)
+			qerr, e := vfEngineSelect(mapper, tr, n, nsrc, sc.Variant, per, &res.Notes)
 			if e != nil {
 				return res, e
 			}
 			if qerr != nil {
 				finish("error", nil, qerr)
 			} else {
-				finish("success", reads, nil)
+				res.Per = per
+				finish("success", total(), nil)
 			}
 			return res, nil
 		}
-		// select = FieldDimensions, MapType, CreateIterator, drain
-		run.event(map[string]interface{}{"e": "opStart", "op": "FD"})
-		fields, _, err := csm.FieldDimensions(m)
-		opEnd("FD", err)
-		if err != nil {
-			finish("error", nil, err)
-			return res, nil
-		}
-		for s := 1; s <= n; s++ {
-			if _, ok := fields[fmt.Sprintf("f%d", s)]; !ok {
-				res.Notes = append(res.Notes, "fd:partial")
+		// select = per measurement FieldDimensions, MapType, CreateIterator; then drain every iterator
+		var itrs []query.Iterator
+		closeAll := func() {
+			for _, it := range itrs {
+				if it != nil {
+					it.Close()
+				}
 			}
 		}
-		run.event(map[string]interface{}{"e": "opStart", "op": "MT"})
-		csm.MapType(m, "value")
-		opEnd("MT", nil)
-		run.event(map[string]interface{}{"e": "opStart", "op": "CI"})
-		itr, err := csm.CreateIterator(context.Background(), m, opt)
-		opEnd("CI", err)
-		if err != nil {
-			finish("error", nil, err)
-			return res, nil
+		for _, mm := range ms {
+			run.event(map[string]interface{}{"e": "opStart", "op": "FD"})
+			fields, _, err := csm.FieldDimensions(mm)
+			opEnd("FD", err)
+			if err != nil {
+				closeAll()
+				finish("error", nil, err)
+				return res, nil
+			}
+			for s := 1; s <= n; s++ {
+				if _, ok := fields[fmt.Sprintf("f%d", s)]; !ok {
+					res.Notes = append(res.Notes, "fd:partial")
+				}
+			}
+			run.event(map[string]interface{}{"e": "opStart", "op": "MT"})
+			csm.MapType(mm, "value")
+			opEnd("MT", nil)
+			run.event(map[string]interface{}{"e": "opStart", "op": "CI"})
+			itr, err := csm.CreateIterator(context.Background(), mm, opt)
+			opEnd("CI", err)
+			if err != nil {
+				closeAll()
+				finish("error", nil, err)
+				return res, nil
+			}
+			itrs = append(itrs, itr)
 		}
-		reads := make([]int, n)
 		var derr error
-		if itr != nil {
+		for k, itr := range itrs {
+			if itr == nil {
+				continue
+			}
 			fitr, ok := itr.(query.FloatIterator)
 			if !ok {
-				itr.Close()
+				closeAll()
 				return res, fmt.Errorf("unexpected iterator type %T", itr)
 			}
-			for {
+			for derr == nil {
 				p, err := fitr.Next()
 				if err != nil {
 					derr = err
@@ -1251,18 +1311,20 @@ func vfExec(cl *vfCluster, sc *vfScen, rid int, timeout time.Duration) (res *vfR
 					break
 				}
 				id := int(p.Value)
-				if id >= 1 && id <= n && p.Time == vfT0.UnixNano()+int64(id) {
-					reads[id-1]++
+				if id >= 1 && id <= n && p.Time == vfT0.UnixNano()+int64(id) && p.Name == vfSourceName(k) {
+					per[k][id-1]++
 				} else {
 					res.Notes = append(res.Notes, "read:out-of-range-shard")
 				}
 			}
-			itr.Close()
 		}
+		closeAll()
+		_ = m
 		if derr != nil {
 			finish("error", nil, derr)
 		} else {
-			finish("success", reads, nil)
+			res.Per = per
+			finish("success", total(), nil)
 		}
 	case "meta":
 		var local []uint64
@@ -1373,21 +1435,28 @@ func vfExec(cl *vfCluster, sc *vfScen, rid int, timeout time.Duration) (res *vfR
 
 // vfEngineSelect runs "SELECT value FROM db0.rp0.m WHERE <range>" through query.Select with the cluster shard
 // mapper and counts the markers in the rows.
-func vfEngineSelect(mapper *ClusterShardMapper, tr influxql.TimeRange, n int, notes *[]string) (reads []int, qerr error, err error) {
-	q := fmt.Sprintf("SELECT value FROM %s.%s.%s WHERE time >= %d AND time <= %d", vfDB, vfRP, vfMeasurement, tr.Min.UnixNano(), tr.Max.UnixNano())
+func vfEngineSelect(mapper *ClusterShardMapper, tr influxql.TimeRange, n, nsrc, variant int, per [][]int, notes *[]string) (qerr error, err error) {
+	var from []string
+	for k := 0; k < nsrc; k++ {
+		name := fmt.Sprintf("%s.%s.%s", vfDB, vfRP, vfSourceName(k))
+		if nsrc > 1 && (variant/11+k)%3 == 0 {
+			name = fmt.Sprintf("(SELECT value FROM %s)", name)
+		}
+		from = append(from, name)
+	}
+	q := fmt.Sprintf("SELECT value FROM %s WHERE time >= %d AND time <= %d", strings.Join(from, ", "), tr.Min.UnixNano(), tr.Max.UnixNano())
 	st, err := influxql.ParseStatement(q)
 	if err != nil {
-		return nil, nil, err
+		return nil, err
 	}
 	cur, qerr := query.Select(context.Background(), st.(*influxql.SelectStatement), mapper, query.SelectOptions{})
 	if qerr != nil {
-		return nil, qerr, nil
+		return qerr, nil
 	}
 	if cur == nil {
-		return make([]int, n), nil, nil
+		return nil, nil
 	}
 	defer cur.Close()
-	reads = make([]int, n)
 	var row query.Row
 	for cur.Scan(&row) {
 		id := 0
@@ -1396,16 +1465,22 @@ func vfEngineSelect(mapper *ClusterShardMapper, tr influxql.TimeRange, n int, no
 				id = int(f)
 			}
 		}
-		if id >= 1 && id <= n && row.Time == vfT0.UnixNano()+int64(id) {
-			reads[id-1]++
+		k := -1
+		for i := 0; i < nsrc; i++ {
+			if row.Series.Name == vfSourceName(i) {
+				k = i
+			}
+		}
+		if k >= 0 && id >= 1 && id <= n && row.Time == vfT0.UnixNano()+int64(id) {
+			per[k][id-1]++
 		} else {
 			*notes = append(*notes, "read:out-of-range-shard")
 		}
 	}
 	if e := cur.Err(); e != nil {
-		return nil, e, nil
+		return e, nil
 	}
-	return reads, nil, nil
+	return nil, nil
 }
 
 // ---------------------------------------------------------------------------------------------- oracle
@@ -1512,10 +1587,24 @@ func vfJudge(sc *vfScen, res *vfResult) (sigs []string, detail string) {
 	}
 	if res.Outcome == "success" {
 		var missing, twice []int
+		per := res.Per
+		if per == nil {
+			per = [][]int{res.Reads}
+		}
 		for s := 1; s <= n; s++ {
-			if res.Reads[s-1] == 0 {
+			// every shard exactly once per measurement source
+			lo, hi := false, false
+			for _, p := range per {
+				if p[s-1] == 0 {
+					lo = true
+				} else if p[s-1] > 1 {
+					hi = true
+				}
+			}
+			if lo {
 				missing = append(missing, s)
-			} else if res.Reads[s-1] > 1 {
+			}
+			if hi {
 				twice = append(twice, s)
 			}
 		}
@@ -1568,8 +1657,8 @@ func vfJudge(sc *vfScen, res *vfResult) (sigs []string, detail string) {
 			add("model:" + kind + ":" + res.Outcome + ":" + vfFaultSig(sc, res, nil))
 		}
 	}
-	detail = fmt.Sprintf("scenario %d kind=%s coord=%s owners=%v fault=%v variant=%d: outcome=%s reads=%v err=%q assign=%v notes=%v allowed=%v",
-		sc.ID, kind, sc.Coord, sc.Owners, sc.Fault, sc.Variant, res.Outcome, res.Reads, res.Err, res.Assign, res.Notes, sc.Allowed)
+	detail = fmt.Sprintf("scenario %d kind=%s sources=%d coord=%s owners=%v fault=%v variant=%d: outcome=%s reads=%v per-source=%v err=%q assign=%v notes=%v allowed=%v",
+		sc.ID, kind, sc.NSrc, sc.Coord, sc.Owners, sc.Fault, sc.Variant, res.Outcome, res.Reads, res.Per, res.Err, res.Assign, res.Notes, sc.Allowed)
 	return sigs, detail
 }
 
